@@ -44,6 +44,11 @@ def configs(ctx):
             c["N"] = 3
         out.append(kernelcheck.cost_guard(c))
     if not quick:
+        for i in range(80):
+            # boundary of the resampling trigger: every step resampled, equal weights frequent (flat data), N = 3 or 4
+            out.append(dc(op="pg", n=2, N=r.choice([3, 3, 4]), threshold=r.choice([1.0, 1.0, 0.5]), proposal=r.choice(PROPOSALS), wiring=r.choice(["run", "lib"]),
+                          data_seed=r.randrange(1 << 30), style=r.choice(["gauss", "flat", "peaked"]), outlier_prob=r.choice([0.0, 0.1, 0.3]),
+                          alpha=r.choice([0.3, 1.0, 4.0]), samples=r.choice([1, 2])))
         for prop in PROPOSALS:
             out.append(dc(op="pg", n=4, style="flat", symmetric=1, proposal=prop, wiring="lib", outlier_prob=0.2, data_seed=30, alpha=1.6))
             out.append(dc(op="pg", n=4, style="flat", symmetric=1, proposal=prop, wiring="run", N=3, data_seed=31))
